@@ -392,6 +392,17 @@ def rule_descendant(ctx, m):
             if cls != "Qentem::Value" and f.name != "operator=":
                 continue
             ps = [p for p in f.params if p.get("ref") and (short in p["t"].replace("const ", "").split("<")[0].split("::")[-1] or p["t"].replace("const ", "").strip().startswith(short))]
+            if cls == "Qentem::Value":
+                # ... and everything else a Value can hold: an object, an array or a string handed in by reference may be the
+                # payload of one of this value's own members, a character pointer may point into its own string
+                for p in f.params:
+                    t_ = p["t"].replace("const ", "")
+                    if p in ps:
+                        continue
+                    if p.get("ref") and any(k_ in t_ for k_ in ("ObjectT", "ArrayT", "StringT")) and "StringViewT" not in t_:
+                        ps.append(p)
+                    elif p.get("ptr") and t_.replace(" ", "") == "Char_T*" and p.get("pconst"):
+                        ps.append(p)
             if not ps:
                 continue
             for p in ps:
@@ -458,15 +469,38 @@ def rule_descendant(ctx, m):
                         elif state[s_] is None and st is not None:
                             state[s_] = st
                             work.append(s_)
+                # pointers / references taken from the parameter (src_val = val.array_.Storage()) stand for it
+                derived = {p["d"]}
+                if cls == "Qentem::Value":
+                    grew = True
+                    while grew:
+                        grew = False
+                        for ds in astq.nodes_of(f, "DeclStmt"):
+                            for d_ in f.nodes[ds]["decls"]:
+                                if "d" in d_ and d_["d"] not in derived and d_.get("init", -1) >= 0 and (d_.get("tk") == "ptr" or d_.get("ref")) and \
+                                        any(f.nodes[y]["k"] == "DeclRefExpr" and f.nodes[y].get("d") in derived for y in f.walk(d_["init"])):
+                                    derived.add(d_["d"])
+                                    grew = True
                 for bid, st in state.items():
                     for e in blocks[bid]["el"]:
                         if "n" in e and not e.get("k"):
                             n = f.nodes[e["n"]]
-                            if st is not None and n["k"] == "DeclRefExpr" and n.get("d") == p["d"]:
+                            if st is not None and n["k"] == "DeclRefExpr" and n.get("d") in derived:
                                 hits.append((e["n"], st))
                             ev = rel_event(e)
                             if ev and st is None:
                                 st = ev
+                            # a container OF the argument handed to the growth of this object's own container of the same kind: the
+                            # callee walks it while this object's storage is rebuilt (v += v["a"] with both objects)
+                            if cls == "Qentem::Value" and n["k"] in ("CompoundAssignOperator", "BinaryOperator", "CXXOperatorCallExpr") and n.get("op") == "+=":
+                                lhs_ = f.call_args(e["n"])[0] if n["k"] == "CXXOperatorCallExpr" else n["ch"][0]
+                                rhs_ = f.call_args(e["n"])[1] if n["k"] == "CXXOperatorCallExpr" else n["ch"][1]
+                                ln_ = f.nodes[f.strip(lhs_)]
+                                rn_ = f.nodes[f.strip(rhs_)]
+                                if ln_["k"] in ("MemberExpr", "CXXDependentScopeMemberExpr") and ln_.get("n") in ("object_", "array_") and \
+                                        rn_["k"] in ("MemberExpr", "CXXDependentScopeMemberExpr") and rn_.get("n") == ln_.get("n") and rn_.get("ch") and \
+                                        f.nodes[f.strip(rn_["ch"][0])].get("d") == p["d"] and not p.get("rref"):
+                                    hits.append((e["n"], "the growth of `%s` itself" % ln_["n"]))
                 if hits:
                     nid, why = hits[0]
                     par = f.parents().get(nid, nid)
